@@ -173,6 +173,10 @@ impl BinaryOperator {
                 }
             }
             Expression::Unary(_) => self.precedes_unary_expression(),
+            // a negative number is written with a minus sign, like a unary expression
+            Expression::Number(number) => {
+                self.precedes_unary_expression() && number.compute_value().is_sign_negative()
+            }
             Expression::If(_) => true,
             _ => false,
         };
